@@ -329,7 +329,7 @@ class Context(object):
             if frame is self.__dict__["_root"]:
                 continue
             if attr in frame:
-                record = self.__dict__["_record"][attr]
+                record = self.__dict__["_record"].get(attr, (__file__, 0, "", ""))
                 params = {
                     "attr": attr,
                     "filename": record[0],
@@ -391,7 +391,7 @@ class Context(object):
 
         for frame in self._stack[1:]:
             if attr in frame:
-                record = self._record[attr]
+                record = self._record.get(attr, (__file__, 0, "", ""))
                 params = {
                     "attr": attr,
                     "filename": record[0],
@@ -414,7 +414,8 @@ class Context(object):
         frame = self._stack[0]
         if attr in frame:
             del frame[attr]
-            del self._record[attr]
+            # -- NOTE: Only one record per name exists (for all layers).
+            self._record.pop(attr, None)
         else:
             msg = "'{0}' object has no attribute '{1}' at the current level"
             msg = msg.format(self.__class__.__name__, attr)
